@@ -36,14 +36,32 @@ class Collector(object):
         if len(self.samples) < cap:
             self.samples.append(s)
 
+    def _known_id(self, v):
+        try:
+            if not hasattr(self, "_known"):
+                from vlib.runner import load_known
+                self._known = load_known(self.prop)
+            if not self._known:
+                return None
+            from vlib.runner import match_known
+            e = match_known(self._known, v)
+            return e["id"] if e else None
+        except Exception:
+            return None
+
     def violation(self, clause, function, inp, observed, expected, note=""):
         key = (clause, function, repr(inp))
         if key in self.vkeys:
             return
         self.vkeys.add(key)
         self.per_clause = getattr(self, "per_clause", {})
-        self.per_clause[clause] = self.per_clause.get(clause, 0) + 1
-        if self.per_clause[clause] > 40:
+        # violations that belong to a recorded known finding are capped on their own: they must not use up the per-clause room of NEW violations
+        capkey = clause
+        kid = self._known_id({"clause": clause, "function": function, "input": inp, "observed": observed, "expected": expected})
+        if kid is not None:
+            capkey = ("known", kid, clause)
+        self.per_clause[capkey] = self.per_clause.get(capkey, 0) + 1
+        if self.per_clause[capkey] > 40:
             return
         if len(self.violations) < self.max_violations:
             self.violations.append({"clause": clause, "function": function, "input": inp,
